@@ -47,7 +47,7 @@ NCASES = {"quick": 8000, "thorough": 200000}
 FLOORS = {"quick": {"held": 1500, "simplified_held": 200}, "thorough": {"held": 40000, "simplified_held": 5000}}
 OPS = [
     "add", "sub", "mul", "div", "pow", "neg", "abs", "conj", "real", "imag", "radd", "rmul", "rsub", "rdiv", "rpow",
-    "getitem", "getitem", "getitem", "getitem_bound", "as_tensor_idx", "as_tensor_idx", "stack", "stack", "stack_rows_views", "dot", "inner", "outer", "cross", "perp",
+    "getitem", "getitem", "getitem", "getitem_bound", "mul_zero_fi", "as_tensor_idx", "as_tensor_idx", "stack", "stack", "stack_rows_views", "dot", "inner", "outer", "cross", "perp",
     "transpose", "tr", "det", "inv", "cofac", "dev", "skew", "sym", "diag", "diag_vector", "elem_mult", "elem_div", "elem_pow",
     "conditional", "sign", "minmax", "math", "atan2", "bessel", "mul_chain", "sum_chain", "unary_chain", "unary_chain",
 ]
@@ -178,6 +178,23 @@ def build(rng, U, G, op, cplx):
         if op == "rmul":
             a = Operand(rng.choice([0, 1, -1, 2, 0.5]), "pyliteral")
         return (lambda: a.obj * b.obj), R.mul, [a, b]
+    if op == "mul_zero_fi":
+        # products that fold to zero although BOTH operands carry free indices, in both operand orders and with the
+        # younger index on either side (the folded Zero must list the merged indices like the unfolded product)
+        i, j, k, _ = U.idx
+        ia, ib = rng.sample([i, j, k], 2)
+        n, m = rng.choice([2, 3]), rng.choice([2, 3])
+        kind = rng.choice(["s*t", "t*s", "s*s", "m*v"])
+        if kind == "s*s":
+            x, y = G.expr((n,), 1)[ia], 0 * G.expr((m,), 1)[ib]
+        elif kind == "m*v":
+            x, y = G.expr((n, 2, m), 0)[ia, :, :], (0 * G.expr((m, n), 0))[:, ib]
+        else:
+            x, y = G.expr((n,), 1)[ia], (0 * G.expr((m, 2), 1))[ib, :]
+        if kind == "t*s" or rng.random() < 0.3:
+            x, y = y, x
+        a, b = Operand(x, "free-index"), Operand(y, "zero-free-index-tensor")
+        return (lambda: a.obj * b.obj), R.mul, [a, b]
     if op in ("div", "rdiv"):
         a, b = A(sh), A(())
         if op == "rdiv":
@@ -185,6 +202,9 @@ def build(rng, U, G, op, cplx):
         return (lambda: a.obj / b.obj), R.div, [a, b]
     if op in ("pow", "rpow"):
         a = A(()) if rng.random() < 0.85 else A(sh)
+        if op == "pow" and rng.random() < 0.25:
+            # a power of a power (the base values change sign / are complex: (f**2)**0.5 is |f|, not f)
+            a = Operand(G.expr((), rng.choice([0, 1])) ** rng.choice([2, 2, 4, -2, 3, 0.5]), "power")
         b = Operand(rng.choice([0, 1, 2, 3, -1, -2, 0.5, 2.0, 1.5]), "pyliteral") if rng.random() < 0.7 else A((), allow_fi=False)
         if op == "rpow":
             a, b = Operand(rng.choice([2, 0.5, 3]), "pyliteral"), A((), allow_fi=False)
@@ -545,6 +565,13 @@ def case(ctx, i, rng):
         except np.linalg.LinAlgError:
             verdicts.append("inconclusive")
             continue
+        rfi = tuple(res.ufl_free_indices)
+        if rfi != tuple(sorted(set(rfi))):
+            # the free indices of every expression are listed in increasing order without repetition (every consumer,
+            # e.g. the addition of two terms, compares these tuples)
+            struct_bad = ((tuple(res.ufl_shape), rfi, tuple(res.ufl_index_dimensions)), (tuple(exp.shape), tuple(exp.fi), tuple(exp.arr.shape[exp.rank :])))
+            verdicts.append("disagree")
+            continue
         try:
             got, fl2 = value(res, w)
             flags |= fl2
@@ -647,7 +674,7 @@ _EXPECTED_TOP = {
     "add": "Sum", "sub": "Sum", "mul": None, "div": None, "pow": "Power", "neg": None, "abs": "Abs", "conj": "Conj", "real": "Real", "imag": "Imag",
     "dot": "Dot", "inner": "Inner", "outer": "Outer", "cross": "Cross", "perp": "Perp", "transpose": "Transposed", "tr": "Trace", "det": "Determinant",
     "inv": "Inverse", "cofac": "Cofactor", "dev": "Deviatoric", "skew": "Skew", "sym": "Sym", "conditional": "Conditional", "stack": "ListTensor",
-    "stack_rows_views": "ListTensor", "as_tensor_idx": "ComponentTensor", "getitem": None, "getitem_bound": None, "minmax": None, "sign": "Conditional",
+    "stack_rows_views": "ListTensor", "as_tensor_idx": "ComponentTensor", "getitem": None, "getitem_bound": None, "mul_zero_fi": None, "minmax": None, "sign": "Conditional",
 }
 
 
